@@ -171,7 +171,7 @@ def r3_terminator(prog, rep: Report, fam: Family):
                           scenario="file content 'a\nbb\nccc' (no final newline): the last line reads as 'cc'", line=r.lineno)
                 continue
             while isinstance(e, ast.Call) and isinstance(e.func, ast.Attribute):
-                d = dotted(e.func.value)
+                d = dotted(flow.expand(e.func.value))
                 if e.func.attr == "readline" and d and len(d) == 2 and d[0] == f.self_name and d[1] in handles:
                     break
                 ops.append(e)
